@@ -188,11 +188,10 @@ static size_t utls_priv_size(enum xcm_socket_type type)
 
 #define PROTO_SEP_LEN (1)
 
-static void map_tls_to_ux(const char *tls_addr, char *ux_addr, size_t capacity)
+static int map_tls_to_ux(const char *tls_addr, char *ux_addr, size_t capacity)
 {
-    int rc = xcm_addr_ux_make(tls_addr+strlen(XCM_TLS_PROTO)+PROTO_SEP_LEN,
-			      ux_addr, capacity);
-    ut_assert(rc == 0);
+    return xcm_addr_ux_make(tls_addr+strlen(XCM_TLS_PROTO)+PROTO_SEP_LEN,
+			    ux_addr, capacity);
 }
 
 static void remove_sub_socket(struct xcm_socket **s)
@@ -215,7 +214,8 @@ static int utls_connect(struct xcm_socket *s, const char *remote_addr)
     }
 
     char ux_addr[XCM_ADDR_MAX+1];
-    map_tls_to_ux(tls_addr, ux_addr, sizeof(ux_addr));
+    if (map_tls_to_ux(tls_addr, ux_addr, sizeof(ux_addr)) < 0)
+	goto err_close_both;
 
     /* unlike TCP sockets, if the UX socket doesn't exists,
        ECONNREFUSED will be returned immediately, even for
@@ -306,7 +306,8 @@ static int utls_server(struct xcm_socket *s, const char *local_addr)
 	actual_addr = tls_addr;
 
     char ux_addr[XCM_ADDR_MAX+1];
-    map_tls_to_ux(actual_addr, ux_addr, sizeof(ux_addr));
+    if (map_tls_to_ux(actual_addr, ux_addr, sizeof(ux_addr)) < 0)
+	goto err_close_both;
 
     if (bind_sub_server(&us->ux_socket, ux_addr) <  0)
 	goto err_close_both;
